@@ -897,7 +897,7 @@ def run_property(prop, tier, seed):
         if not q:
             ic_stage(out, "big-deep", prop, ["stride", "opt", "list"], "big", 6, 0, extend=False)
             stride_proof_stage(out)
-        ic_walk_stage(out, q, seed, lambda e: e["why"] != "heap-bytes-differ-from-documented-cost")
+        ic_walk_stage(out, q, seed, lambda e: e["why"] not in ("heap-bytes-differ-from-documented-cost", "capacity-shrank-on-clear"))
     elif prop == "C19":
         # ghost = 1: reserve / clone / serde may precede or follow; capacity must stay zero for compressible histories
         ic_stage(out, "full", prop, ["vec", "list", "opt"], "full", 4 if q else 5, 1)
@@ -946,7 +946,7 @@ def run_property(prop, tier, seed):
                     e["why"] == "merge-over-cleared-differs-from-fresh")
         huffman_random_stage(out, q, seed, lambda e: (e.get("afterclear", False) and not e["why"].startswith("cmp")) or
                              e["why"] == "merge-over-cleared-differs-from-fresh", "huffman-cleared")
-        ic_walk_stage(out, q, seed, lambda e: e.get("afterclear", False) or e["why"] == "clear-panicked")
+        ic_walk_stage(out, q, seed, lambda e: (e.get("afterclear", False) or e["why"] == "clear-panicked") and e["why"] != "capacity-shrank-on-clear")
         coded_columns_stage(out, q, seed, lambda e: e.get("afterclear", False) or e["why"] == "clear-panicked")
         # long histories (allocations of hundreds of KiB), then clear, then the same pushes next to a brand-new twin
         contract_trace_stage(out, ["C08"], q, seed, runs=1 if q else 10, long=9000 if q else 40000)
@@ -962,7 +962,7 @@ def run_property(prop, tier, seed):
         # coded containers: clone and clone_from (into a differently coded container), then the same continuation
         huffman_random_stage(out, q, seed, lambda e: (e.get("copied", False) or e["why"].startswith("copy")) and not e["why"].startswith("cmp"),
                              "huffman-copies")
-        ic_walk_stage(out, q, seed, lambda e: e.get("copied", False) or e["why"] == "copy-failed")
+        ic_walk_stage(out, q, seed, lambda e: (e.get("copied", False) or e["why"] == "copy-failed") and e["why"] != "capacity-shrank-on-clear")
         # a coded region nested in a fan-out region, bare and under a FlatStack: clone / clone_from, same continuation
         coded_columns_stage(out, q, seed, lambda e: e.get("copied", False) or e["why"].startswith("copy-"))
         contract_trace_stage(out, ["C09"], q, seed)
@@ -995,11 +995,11 @@ def run_property(prop, tier, seed):
     elif prop == "C11":
         names = subjects_where(cat, lambda e: shape_has(e["shape"], "collapse"))
         region_stage(out, "collapse", prop, names, 2, 4 if q else 5, 1, 3 if q else 4,
-                     ["push", "clear", "clone", "clone_from", "merge", "serde"])
+                     ["push", "clear", "clone", "clone_from", "merge", "serde", "reserve_regions"])
         contract_trace_stage(out, ["C11"], q, seed, subjects=names)
     elif prop == "C12":
         names = subjects_where(cat, lambda e: e["shape"]["k"] in ("cip", "columns"))
-        region_stage(out, "dense", prop, names, 2, 4 if q else 5, 1, 4 if q else 5, ["push", "clear", "merge"])
+        region_stage(out, "dense", prop, names, 2, 4 if q else 5, 1, 4 if q else 5, ["push", "clear", "merge", "reserve_regions"])
         # offset sequences beyond u32::MAX: the ICMC histories over a monotone alphabet (a 2^31 stride past 2^32, a value
         # that breaks it, its next multiple) read as item lengths of ConsecutiveIndexPairs over a zero-sized payload
         ic_stage(out, "offsets-through-pairs", prop, ["opt", "list", "vec"], "mono", 6 if q else 7, 0, extend=False)
@@ -1033,12 +1033,14 @@ def run_property(prop, tier, seed):
         region_stage(out, "heap-copies", prop, cl, 2, 4, 1, 3, ["push", "clone", "clone_from"] + ([] if q else ["clear", "merge"]))
         stack_stage(out, "flatstack", prop, stack_names(), 4, 0, 3, ["copy", "extend", "clear", "from_iter"])
         ic_stage(out, "index-containers", prop, ["vec", "list", "opt"], "full", 4, 0)
+        ic_walk_stage(out, q, seed, lambda e: e["why"] == "capacity-shrank-on-clear")
         contract_trace_stage(out, ["C18"], q, seed)
     elif prop == "C20":
         region_stage(out, "forms", prop, allnames, 2, 3 if q else 4, 0, 3, ["push", "push_from"])
         # a read item of another container (raw or coded) as input form: reads, bit ranges and the statistics
         # that the next generation is built from
         huffman_random_stage(out, q, seed, lambda e: e.get("wrapped", False) and not e["why"].startswith("cmp"), "huffman-wrapped")
+        contract_trace_stage(out, ["C20"], q, seed)
     elif prop == "C17":
         names = subjects_where(cat, lambda e: is_structural(e["shape"]))
         region_stage(out, "ledger-rule", prop, names, 2, 3, 0, 4, ["push", "clear"], min_judged=0, replay=False)
